@@ -205,6 +205,125 @@ pub fn persist_notice_after_truncation() -> Script {
     s
 }
 
+/// Variant of the race above: the truncating append is first turned into a Ready of its own (written, not
+/// fsynced) and only then the persistence notice of the older Ready arrives: its record (index 2, term 1) now
+/// meets a different entry (index 2, term 2) whose write has not been reported.
+pub fn persist_notice_after_truncating_ready() -> Script {
+    use raft::eraftpb::MessageType as T;
+    let mut s = Script::new(cluster(vec![1, 2, 3, 4, 5], 5));
+    s.act(Action::Campaign { n: 1 });
+    s.settle(&[1, 2, 3, 4, 5]);
+    s.act(Action::Propose { n: 1, id: 1, size: 8 });
+    s.sync_round(1);
+    s.deliver_where(|k, m| k.f == 1 && k.t == 3 && m.get_msg_type() == T::MsgAppend);
+    s.act(Action::AppReady { n: 3, mode: Mode::Async, skip_fsync: false, force: false });
+    s.drop_where(|k, _| k.f == 1);
+    s.act(Action::Campaign { n: 2 });
+    s.sync_round(2);
+    s.deliver_where(|k, m| k.f == 2 && (k.t == 4 || k.t == 5) && m.get_msg_type() == T::MsgRequestVote);
+    s.drop_where(|k, _| k.f == 2 && (k.t == 1 || k.t == 3));
+    s.sync_round(4);
+    s.sync_round(5);
+    s.deliver_where(|k, _| k.t == 2);
+    s.sync_round(2);
+    for _ in 0..4 {
+        s.drop_where(|k, _| k.t == 1 || k.t == 3 || k.f == 1 || k.f == 3);
+        s.settle(&[2, 4, 5]);
+    }
+    s.drop_where(|k, _| k.t == 1 || k.t == 3);
+    s.act(Action::Tick { n: 2 });
+    s.sync_round(2);
+    s.deliver_where(|k, m| k.f == 2 && k.t == 3 && m.get_msg_type() == T::MsgHeartbeat);
+    s.drop_where(|k, _| k.t == 1);
+    s.act(Action::AppReady { n: 3, mode: Mode::Async, skip_fsync: false, force: false });
+    s.act(Action::Fsync { n: 3, count: u32::MAX, defer: true });
+    s.deliver_where(|k, m| k.f == 3 && k.t == 2 && m.get_msg_type() == T::MsgHeartbeatResponse);
+    s.sync_round(2);
+    // the truncating append becomes a Ready of its own, written to the page cache only
+    s.deliver_where(|k, m| k.f == 2 && k.t == 3 && m.get_msg_type() == T::MsgAppend);
+    s.act(Action::AppReady { n: 3, mode: Mode::Async, skip_fsync: false, force: false });
+    // now the application tells raft about the older write
+    s.act(Action::Notify { n: 3 });
+    s.act(Action::AppReady { n: 3, mode: Mode::Async, skip_fsync: false, force: false });
+    s.act(Action::Apply { n: 3, count: u32::MAX });
+    s.act(Action::Fsync { n: 3, count: u32::MAX, defer: false });
+    s.settle(&[2, 3, 4, 5]);
+    s
+}
+
+/// C04: a stale persistence notice reaches a re-elected leader. Node 1 (leader of term 1) has written entries
+/// 2..4 of term 1 but not yet told raft; it is deposed, its tail is overwritten by the term-2 leader, it is
+/// elected again for term 3 and appends 3..5 of term 3 (written to the page cache only). Then the notice for
+/// the term-1 write arrives on its own (`NotifyOne`). The leader must not count itself for index 4.
+pub fn stale_persist_notice_on_reelected_leader() -> Script {
+    use raft::eraftpb::MessageType as T;
+    let mut s = Script::new(cluster(vec![1, 2, 3], 3));
+    let round = |s: &mut Script, n: NodeId| {
+        s.act(Action::AppReady { n, mode: Mode::Async, skip_fsync: false, force: false });
+        s.act(Action::Fsync { n, count: u32::MAX, defer: true });
+    };
+    s.act(Action::Campaign { n: 1 });
+    s.settle(&[1, 2, 3]);
+    for id in 1..=3 {
+        s.act(Action::Propose { n: 1, id, size: 8 });
+    }
+    round(&mut s, 1); // entries 2..4 of term 1 durable, raft not told
+    s.drop_where(|k, _| k.f == 1);
+    // node 2 wins term 2 with node 3, commits its entry at index 2
+    s.act(Action::Campaign { n: 2 });
+    s.sync_round(2);
+    s.drop_where(|k, _| k.f == 2 && k.t == 1);
+    s.deliver_where(|k, m| k.f == 2 && k.t == 3 && m.get_msg_type() == T::MsgRequestVote);
+    s.sync_round(3);
+    s.deliver_where(|k, m| k.f == 3 && k.t == 2 && m.get_msg_type() == T::MsgRequestVoteResponse);
+    s.sync_round(2);
+    for _ in 0..4 {
+        s.drop_where(|k, _| k.t == 1 || k.f == 1);
+        s.settle(&[2, 3]);
+    }
+    // node 1 hears from node 2: follower of term 2, tail replaced by (2, term 2); every write of node 1
+    // completes, none is reported to raft
+    s.act(Action::Tick { n: 2 });
+    s.sync_round(2);
+    s.drop_where(|k, _| k.t == 3);
+    for _ in 0..6 {
+        let n = s.deliver_where(|k, _| k.f == 2 && k.t == 1);
+        round(&mut s, 1);
+        s.deliver_where(|k, _| k.f == 1 && k.t == 2);
+        s.sync_round(2);
+        s.drop_where(|k, _| k.t == 3 && k.f == 2);
+        if n == 0 {
+            break;
+        }
+    }
+    // node 1 is elected for term 3 by node 3
+    s.act(Action::Campaign { n: 1 });
+    round(&mut s, 1);
+    s.drop_where(|k, _| k.f == 1 && k.t == 2);
+    s.deliver_where(|k, m| k.f == 1 && k.t == 3 && m.get_msg_type() == T::MsgRequestVote);
+    s.sync_round(3);
+    s.deliver_where(|k, m| k.f == 3 && k.t == 1 && m.get_msg_type() == T::MsgRequestVoteResponse);
+    // the completed writes are reported one by one, oldest (the term-1 write) first
+    for _ in 0..8 {
+        s.act(Action::NotifyOne { n: 1 });
+    }
+    for id in 11..=12 {
+        s.act(Action::Propose { n: 1, id, size: 8 });
+    }
+    // the new entries are handed to the (slow) disk; nothing of them is durable on node 1
+    s.drop_where(|k, _| k.f == 1 && k.t == 2);
+    for _ in 0..4 {
+        s.act(Action::AppReady { n: 1, mode: Mode::Async, skip_fsync: false, force: false });
+        s.drop_where(|k, _| k.f == 1 && k.t == 2);
+        s.deliver_where(|k, _| k.f == 1 && k.t == 3);
+        s.sync_round(3);
+        s.deliver_where(|k, _| k.f == 3 && k.t == 1);
+        s.act(Action::AppReady { n: 1, mode: Mode::Async, skip_fsync: false, force: false });
+        s.drop_where(|k, _| k.f == 1 && k.t == 2);
+    }
+    s
+}
+
 /// C08 open finding: a network duplicate of a forwarded MsgReadIndex is registered a second time at the
 /// (by then superseded) leader; a delayed heartbeat response that acknowledged the first registration
 /// completes the quorum of the second one and releases a later local read without any heartbeat round
@@ -263,7 +382,14 @@ pub fn duplicate_forwarded_read() -> Script {
 /// Scripted scenarios that every check of the property runs besides its random profile.
 pub fn for_property(id: &str) -> Vec<(&'static str, fn() -> Script)> {
     match id {
-        "C07" | "C14" => vec![("persist_notice_after_truncation", persist_notice_after_truncation)],
+        "C07" | "C14" => vec![
+            ("persist_notice_after_truncation", persist_notice_after_truncation),
+            ("persist_notice_after_truncating_ready", persist_notice_after_truncating_ready),
+        ],
+        "C04" => vec![
+            ("persist_notice_after_truncating_ready", persist_notice_after_truncating_ready),
+            ("stale_persist_notice_on_reelected_leader", stale_persist_notice_on_reelected_leader),
+        ],
         _ => vec![],
     }
 }
